@@ -1,5 +1,6 @@
 import OvniModel.Rt.Event
 import OvniModel.Generated.Consts
+import OvniModel.Emu.Basic
 
 /-!
 # Byte-level stream cursor of the emulator and tools (C12, C19)
